@@ -347,10 +347,20 @@ impl<'a> TypstTranslator<'a> {
                 set_rule.condition().and_then(|expr| recurse!(expr)),
                 parse_args(&mut set_rule.args().items())
             ],
-            Expr::Show(show_rule) => merge![
-                recurse!(show_rule.transform()),
-                show_rule.selector().and_then(|expr| recurse!(expr))
-            ],
+            Expr::Show(show_rule) => {
+                let selector = show_rule.selector();
+                let transform = show_rule.transform();
+
+                merge![
+                    // The selector precedes the transform in the source.
+                    selector.and_then(|expr| recurse!(expr)),
+                    // While the rule is still being typed, the selector is handed out as the
+                    // transform as well. Do not tokenize it twice.
+                    (selector.map(|expr| expr.span()) != Some(transform.span()))
+                        .then(|| recurse!(transform))
+                        .flatten()
+                ]
+            }
             Expr::Contextual(contextual) => recurse!(contextual.body()),
             Expr::Conditional(conditional) => merge![
                 recurse!(conditional.condition(), conditional.if_body()),
